@@ -105,6 +105,8 @@ theorem verify_raw_iff (digest : List UInt8) (pk : Point) (sig : List UInt8) :
       digest.length = 32 ∧ sig.length = 64 ∧
       1 ≤ beNat (sig.take 32) ∧ beNat (sig.take 32) < Gen.SM2.N ∧ 1 ≤ beNat (sig.drop 32) ∧ beNat (sig.drop 32) < Gen.SM2.N ∧
       fn_add (beNat (sig.drop 32)) (beNat (sig.take 32)) ≠ 0 ∧
+      ((g_mul (beNat (sig.drop 32))).point_add
+          (pk.scalar_mul (fn_add (beNat (sig.drop 32)) (beNat (sig.take 32))))).is_zero = false ∧
       beNat (sig.take 32) =
         fn_add (reduceN (fp_from_mont (((g_mul (beNat (sig.drop 32))).point_add
                   (pk.scalar_mul (fn_add (beNat (sig.drop 32)) (beNat (sig.take 32))))).to_affine_point).x))
@@ -113,8 +115,14 @@ theorem verify_raw_iff (digest : List UInt8) (pk : Point) (sig : List UInt8) :
   dsimp only
   repeat' split
   all_goals first | (simp only [reduceCtorEq, false_iff]; omega) | skip
-  rename_i h1 h2 h3 h4 h5 h6
-  exact ⟨fun _ => ⟨by omega, by omega, by omega, by omega, by omega, by omega, h5, h6⟩, fun _ => rfl⟩
+  · rename_i h1 h2 h3 h4 h5 h6
+    simp only [reduceCtorEq, false_iff]
+    intro h
+    rw [h.2.2.2.2.2.2.2.1] at h6
+    exact Bool.noConfusion h6
+  · rename_i h1 h2 h3 h4 h5 h6 h7
+    exact ⟨fun _ => ⟨by omega, by omega, by omega, by omega, by omega, by omega, h5, by simpa using h6, h7⟩,
+      fun _ => rfl⟩
 
 theorem verify_raw_total (digest : List UInt8) (pk : Point) (sig : List UInt8) : verify_raw digest pk sig ≠ .panic := by
   unfold verify_raw
@@ -150,6 +158,20 @@ theorem verify_out_of_range (digest : List UInt8) (pk : Point) (sig : List UInt8
       · split
         · exact ⟨_, rfl⟩
         · omega
+
+/-- B6: a signature that passes the length, range and t ≠ 0 checks but for which [s]G + [t]P_A is the point at infinity
+is rejected with the error `InvalidDigest` -/
+theorem verify_sum_infinity (digest : List UInt8) (pk : Point) (sig : List UInt8)
+    (hd : digest.length = 32) (hs : sig.length = 64)
+    (hr : 1 ≤ beNat (sig.take 32) ∧ beNat (sig.take 32) < Gen.SM2.N)
+    (hsr : 1 ≤ beNat (sig.drop 32) ∧ beNat (sig.drop 32) < Gen.SM2.N)
+    (ht : fn_add (beNat (sig.drop 32)) (beNat (sig.take 32)) ≠ 0)
+    (h : ((g_mul (beNat (sig.drop 32))).point_add
+        (pk.scalar_mul (fn_add (beNat (sig.drop 32)) (beNat (sig.take 32))))).is_zero = true) :
+    verify_raw digest pk sig = .err "InvalidDigest" := by
+  unfold verify_raw
+  dsimp only
+  rw [if_neg (by omega), if_neg (by omega), if_neg (by omega), if_neg (by omega), if_neg ht, if_pos h]
 
 theorem verify_unfold (pk : Point) (id msg sig : List UInt8) (za : List UInt8) (h : compute_za id pk = .ok za) :
     verify pk id msg sig = verify_raw (sm3 (za ++ msg)) pk sig := by
